@@ -67,7 +67,6 @@ candidate(bool ok, const std::string& key, const std::string& text)
     std::fprintf(g_orc, "KNOWN-CANDIDATE %s %s\n", key.c_str(), text.c_str());
 }
 
-static const char* const KEY_GEO = "geo-fixed-point:odd-ring-count-central-ring-mirror-dropped";
 static const char* const KEY_KL = "kl-descent:library-KL-counts-in-ring-LORs-twice";
 
 static std::string
@@ -810,16 +809,12 @@ run_config(vh::Rng& rng, const Cfg& c, bool thorough)
       GeoData3D mg2(acpb_p, tcpb_p / 2, Rp, Np), eg2(acpb_p, tcpb_p / 2, Rp, Np);
       make_geo_data(mg2, d4);
       iterate_geo_norm(eg2, mg2, model);
-      // make_geo_data drops the axially mirrored LORs when exactly one ring of the LOR is the central ring (odd ring count)
-      const bool central_ring_class = Rp % 2 == 1 && Rp >= 5 && fan.get_max_delta() > 0;
+      // (regression guard: before commit 58079aa5c make_geo_data dropped the axially mirrored LORs when exactly one ring of
+      // the LOR was the central ring, which broke this for odd ring counts >= 5)
       for_geo(model, eg, [&](int ra, int a, int rb, int b) {
-        const bool ok = close_rel(eg2(ra, a, rb, b), eg(ra, a, rb, b), 4. * (2 * 4 * nab * ntb + 6) * 5.97e-8);
-        const std::string t = ctx + str(" geometric factor (%d,%d,%d,%d): %g became %g although data = geo*model", ra, a, rb, b % Np,
-                                        eg(ra, a, rb, b), eg2(ra, a, rb, b));
-        if (central_ring_class)
-          candidate(ok, KEY_GEO, t);
-        else
-          oracle(ok, "fixed-point-geo", t);
+        oracle(close_rel(eg2(ra, a, rb, b), eg(ra, a, rb, b), 4. * (2 * 4 * nab * ntb + 6) * 5.97e-8), "fixed-point-geo",
+               ctx + str(" geometric factor (%d,%d,%d,%d): %g became %g although data = geo*model", ra, a, rb, b % Np,
+                         eg(ra, a, rb, b), eg2(ra, a, rb, b)));
       });
     }
   else
@@ -1019,7 +1014,8 @@ run_end_to_end(vh::Rng& rng, const Cfg& c, const std::string& prefix, bool poiss
   (void)prev_kl;
 }
 
-// Fixed (seed-independent) minimal reproductions of the two candidate defects, directly on FanProjData.
+// Fixed (seed-independent) minimal cases, directly on FanProjData: the geometric fixed point with an odd number of rings
+// (regression case of the defect repaired by commit 58079aa5c, strict) and the known finding about KL(FanProjData).
 static void
 run_known_reproductions()
 {
@@ -1038,8 +1034,8 @@ run_known_reproductions()
     make_geo_data(meas2, data);
     iterate_geo_norm(est, meas2, model);
     for_geo(model, ghat, [&](int ra, int a, int rb, int b) {
-      candidate(close_rel(est(ra, a, rb, b), ghat(ra, a, rb, b), 1e-5), KEY_GEO,
-                str("[FanProjData(5 rings, 8 detectors, max ring diff 2, fan 5), GeoData3D(1, 1, 5, 8)] geometric factor (%d,%d,%d,%d): "
+      oracle(close_rel(est(ra, a, rb, b), ghat(ra, a, rb, b), 1e-5), "fixed-point-geo",
+             str("[FanProjData(5 rings, 8 detectors, max ring diff 2, fan 5), GeoData3D(1, 1, 5, 8)] geometric factor (%d,%d,%d,%d): "
                     "%g became %g under iterate_geo_norm although data = apply_geo_norm(model, factors)",
                     ra, a, rb, b % Np, ghat(ra, a, rb, b), est(ra, a, rb, b)));
     });
